@@ -285,15 +285,7 @@ with parse_infix (fuel : nat) (lhs : expr) (s : pst) {struct fuel} : pr expr :=
   if infix_plain op then
     let p := prec_of op in
     pdo (r, s1) <- parse_expression f p (next s);
-    match op with
-    | TPeriod =>
-        match estr 64 r with
-        | None => PNeed
-        | Some [] => POk (EInfix op lhs r) s1
-        | Some name => POk (EInfix op lhs (EStr name)) s1
-        end
-    | _ => POk (EInfix op lhs r) s1
-    end
+    POk (EInfix op lhs r) s1
   else match op with
   | TAssign =>
       match lhs with
